@@ -17,7 +17,8 @@ ADDRS = ["4:c0000201:3478", "4:c0000201:3479", "6:20010db80000000000000000000000
          "6:00000000000000000000ffffc0000207:3478", "4:c0000207:3478",
          "6:fe800000000000000000000000000001%2:3478", "6:fe800000000000000000000000000001%3:3478",
          "6:fe800000000000000000000000000001%3.4660:3478", "6:20010db8000000000000000000000001%0.7:3478"]
-TIDS = [0x01, 0x0203_0405_0607_0809_0a0b_0c0d, 0xffff_ffff_ffff_ffff_ffff_ffff, 0x2112_a442, 0x7000_0000_0000_0000_0000_0001]
+TIDS = [0x01, 0x0203_0405_0607_0809_0a0b_0c0d, 0xffff_ffff_ffff_ffff_ffff_ffff, 0x2112_a442, 0x7000_0000_0000_0000_0000_0001,
+        0x1_0000_0001_0000_0000, 0x8000_0000_0000_0000_0000_0001]
 
 
 def kv_of(lhs):
@@ -323,7 +324,7 @@ def oracle_c05(lhs, obs, group=None):
                 if not live.get(tid):
                     return f"call {i}: response delivered for an id that is not outstanding"
                 live[tid] = False
-            elif p[1].split("@")[0] in ("ok", "err") and not live.get(tid):
+            elif p[1].split("+")[0].split("@")[0] in ("ok", "err") and not live.get(tid):
                 if head != "drop" or (prev_snap is not None and snaps != prev_snap):
                     return f"call {i}: response for an id that is not outstanding was not dropped without a trace ({head})"
         elif p[0] == "P":
@@ -414,7 +415,7 @@ def oracle_c07(lhs, obs, group=None):
             if t not in asked:
                 return (f"call {i}: transaction {t:x} was reported cancelled although neither cancel nor cancel_retransmissions "
                         f"was called for it since it was sent (responses must not be able to cancel a transaction)")
-        if p[0] == "H" and p[1].split("@")[0] in ("ok", "err"):
+        if p[0] == "H" and p[1].split("+")[0].split("@")[0] in ("ok", "err"):
             tid = int(p[2], 16)
             if tid in sealed:
                 signkey = p[3].split(":")[1] if ":" in p[3] else None
